@@ -512,6 +512,12 @@ func ruleIOSNumbering(p *Prog, r *Report) {
 			continue
 		}
 		if blockAborts(b.Succs[0]) {
+			// what is bounded must be the size of the inserted hunk (HighB - LowB): the line numbers
+			// are computed from the index inside the hunk, whatever is done with the line later
+			d := descValue(bo.X, 0)
+			if !(strings.Contains(d, "Range.HighB") && strings.Contains(d, "Range.LowB") && strings.Contains(d, " - ")) {
+				continue
+			}
 			switch bo.Op {
 			case token.GEQ:
 				vals["abort bound"] = k
@@ -697,6 +703,8 @@ func checkC14(p *Prog, r *Report) {
 	ruleJoinedSentAsOnePacket(p, r)
 	ruleStickyState(p, r, "C14", map[string]bool{"cisco": true, "linux": true}, 8)
 	ruleFreshCounters(p, r, "R08.f", map[string]bool{"cisco": true}, 1)
+	r.rule("R08.k", "IOS numbering constants agree and the too-many-lines abort bounds the size of the inserted hunk (see C08): numbers before*S+1 .. before*S+n stay below the next old line.")
+	ruleIOSNumbering(p, r)
 	ruleRewriteDiscipline(p, r, "R-FLAG", "C14", map[string]bool{"cisco": true}, 20)
 	r.rule("R14.g", "The route delete / replace decisions of linux.diffRoutes keep their audited controlling conditions (tables/guards.tsv rows for C14): an old route is joined with the new one only for the same destination (address and prefix length), and deleted only while it is still marked present and not kept.")
 	ruleGuardTable(p, r, "R14.g", "C14")
@@ -866,9 +874,39 @@ func ruleJoinedTransactions(p *Prog, r *Report) {
 	}
 	if fn := p.Fn("(*cisco.State).diffRoutes"); fn != nil {
 		okJ, okNeeded := false, false
-		for _, cs := range callsTo(fn, "(*cisco.State).addToplevel") {
+		// the emitting call: addToplevel with the joined line, or a helper of package cisco that
+		// joins two of its parameters with "\n" itself
+		joinsParams := func(f *ssa.Function) bool {
+			if f == nil || !isModFunc(f) {
+				return false
+			}
+			for _, b := range f.Blocks {
+				for _, in := range b.Instrs {
+					if bo, ok := in.(*ssa.BinOp); ok && hasNLConcat(bo) {
+						_, p1 := bo.Y.(*ssa.Parameter)
+						inner, _ := bo.X.(*ssa.BinOp)
+						_, p0 := inner.X.(*ssa.Parameter)
+						if p0 && p1 {
+							return true
+						}
+					}
+				}
+			}
+			return false
+		}
+		var emitters []*callSite
+		for _, cs := range callsOf(fn) {
+			f := cs.In.Common().StaticCallee()
+			if f == nil {
+				continue
+			}
+			if shortName(f) == "(*cisco.State).addToplevel" || joinsParams(f) {
+				emitters = append(emitters, cs)
+			}
+		}
+		for _, cs := range emitters {
 			a := cs.In.Common().Args[1]
-			if hasNLConcat(a) {
+			if hasNLConcat(a) || joinsParams(cs.In.Common().StaticCallee()) {
 				// guarded by the lookup of the deleted route with the same destination
 				for _, g := range guardSet(cs.In) {
 					if strings.HasPrefix(g, "ok(") {
